@@ -15,7 +15,7 @@ type Tree struct {
 	Layouts []string
 	Comps   []CompSpec
 	Data    *Val
-	FPs     map[string]int // page name -> number of failure-point placeholders in its file
+	FPs     map[string]int    // page name -> number of failure-point placeholders in its file
 	Sent    map[string]string // page name -> sentinel prefix
 }
 
